@@ -9,6 +9,7 @@ import Gojq.Proofs.RoundTripProgram
 import Gojq.Proofs.RoundTripLexGaps
 import Gojq.Proofs.RoundTripImage
 import Gojq.Proofs.RoundTripImage6
+import Gojq.Proofs.RoundTripStrLit
 namespace Gojq.RefTerm
 open Gojq
 
